@@ -155,10 +155,15 @@ func (p *Pset) IsComplete() bool {
 
 func (p *Pset) Locktime() uint32 {
 	var heightLocktime, timeLocktime uint32
+	// an input that can only be satisfied by a time lock forces the time kind
+	timeOnly := false
 	for _, v := range p.Inputs {
 		if v.RequiredTimeLocktime > 0 {
 			if v.RequiredTimeLocktime > timeLocktime {
 				timeLocktime = v.RequiredTimeLocktime
+			}
+			if v.RequiredHeightLocktime == 0 {
+				timeOnly = true
 			}
 		}
 		if v.RequiredHeightLocktime > 0 {
@@ -168,7 +173,7 @@ func (p *Pset) Locktime() uint32 {
 		}
 	}
 
-	if heightLocktime > 0 {
+	if heightLocktime > 0 && !timeOnly {
 		return heightLocktime
 	}
 
